@@ -141,11 +141,12 @@ class Finding:
 
 
 class Unit:
-    def __init__(self, name, prelude, items, lemmas=(), findings=(), rlimit=None, props=(), uses=""):
+    def __init__(self, name, prelude, items, lemmas=(), findings=(), rlimit=None, props=(), uses="", lemma_obs=()):
         self.name, self.prelude, self.items, self.lemmas = name, list(prelude), list(items), list(lemmas)
         self.findings = list(findings)
         self.rlimit = rlimit
         self.uses = uses
+        self.lemma_obs = tuple(lemma_obs)   # names of the marked lemmas this unit counts as its obligations
 
     def fns(self):
         return [i for i in self.items if isinstance(i, Fn)]
